@@ -28,6 +28,14 @@ RULE_TEXT = ('one obligation per (writer, memo field) pair, per (writer, state f
              'method; non-trivial = the memo field really depends on a field the writer stores')
 
 
+DICT_MEMO = set()        # (class, field) of dictionary-valued memo fields
+
+
+def _fresh_container(v):
+  return isinstance(v, (ast.Dict, ast.List, ast.Set)) and not (getattr(v, 'keys', None) or getattr(v, 'elts', None)) or \
+      (isinstance(v, ast.Call) and norm(v.func).split('.')[-1] in ('dict', 'OrderedDict', 'defaultdict', 'list', 'set') and not [a for a in v.args if not isinstance(a, ast.Name)])
+
+
 def _memo_fields(cf):
   """field -> list of (function, store node) where the function both tests
   `self.field is [not] None` and stores a non-None value into it."""
@@ -54,6 +62,17 @@ def _memo_fields(cf):
     for name, node, value, via in cf.stores(f):
       if via == 'field' and name in tested and value is not None and not classfx.is_none(value):
         memo.setdefault(name, []).append((f, node))
+    # dictionary memo: `self.F[key] = value` in a function that also looks the key up in self.F
+    g_ = cf.cfg(f)
+    for n_ in g_.nodes:
+      if n_.kind == 'stmt' and isinstance(n_.ast, ast.Assign):
+        for t_ in n_.ast.targets:
+          if isinstance(t_, ast.Subscript):
+            nm = classfx.self_attr(t_.value, sn)
+            if nm and any((isinstance(x_, ast.Attribute) and classfx.self_attr(x_, sn) == nm and isinstance(x_.ctx, ast.Load)) for x_ in walk_no_nested(f.node)
+                          if not (isinstance(getattr(x_, '_parent', None), ast.Subscript) and isinstance(x_._parent.ctx, ast.Store))):
+              memo.setdefault(nm, []).append((f, n_))
+              DICT_MEMO.add((cf.cls.qualname, nm))
     # hasattr/getattr/try-except AttributeError based caches
     for sub in walk_no_nested(f.node):
       if isinstance(sub, ast.Call) and isinstance(sub.func, ast.Name) and sub.func.id in ('hasattr', 'getattr') \
@@ -86,6 +105,8 @@ def _reset_nodes(cf, f, memo_names, _stack=()):
   for name, node, value, via in cf.stores(f):
     if via == 'field' and value is not None and classfx.is_none(value):
       out.setdefault(name, set()).add(node)
+    elif via == 'field' and value is not None and (cf.cls.qualname, name) in DICT_MEMO and _fresh_container(value):
+      out.setdefault(name, set()).add(node)          # a dictionary memo is reset by installing a fresh container
     elif via == 'setter':
       callee = cf.cls.setters[name]
       for fld in _reset_summary(cf, callee, memo_names, _stack):
@@ -94,6 +115,15 @@ def _reset_nodes(cf, f, memo_names, _stack=()):
     callee = cf.cls.methods[m]
     for fld in _reset_summary(cf, callee, memo_names, _stack):
       out.setdefault(fld, set()).add(node)
+  # ... or by clearing it
+  sn_ = cf.selfname(f)
+  g_ = cf.cfg(f)
+  for n_ in g_.nodes:
+    if n_.kind == 'stmt' and isinstance(n_.ast, ast.Expr) and isinstance(n_.ast.value, ast.Call) and isinstance(n_.ast.value.func, ast.Attribute) \
+        and n_.ast.value.func.attr == 'clear':
+      nm = classfx.self_attr(n_.ast.value.func.value, sn_)
+      if nm and (cf.cls.qualname, nm) in DICT_MEMO:
+        out.setdefault(nm, set()).add(n_)
   return out
 
 
@@ -105,7 +135,7 @@ def _state_stores(cf, f, memo_names=()):
   for name, node, value, via in cf.stores(f):
     if via != 'field':
       continue
-    if name in memo_names and value is not None and classfx.is_none(value):
+    if name in memo_names and value is not None and (classfx.is_none(value) or _fresh_container(value)):
       continue
     out.setdefault(name, []).append(node)
   return out
